@@ -32,6 +32,7 @@ READY = {
     "OHVerif.Props.C16", "OHVerif.Props.C20", "OHVerif.Props.C03",
     "OHVerif.Props.C12Type", "OHVerif.Props.C14Optic", "OHVerif.Props.C19Build",
     "OHVerif.Props.C10Iso", "OHVerif.Props.C04Lax",
+    "OHVerif.Props.C12Subst", "OHVerif.Props.C13Native",
 }
 
 def _mods(*names):
@@ -54,8 +55,8 @@ PROPS = {
     "C10": dict(modules=_mods("OHVerif.Props.C10", "OHVerif.Props.C10Iso"), groups=[("lax.cat", 2500), ("lawlax", 1500)], deps=[("oh", 400)]),
     "C11": dict(modules=_mods("OHVerif.Props.C11"), groups=[("lax.edit", 3000), ("lax.cat", 1500)], deps=[],
                 missing=["the JSON clause is decided by correspondence only (serde_json's text printer/parser is outside the model): the model's documented JSON text is compared with serde's output and the Rust round trip is executed"]),
-    "C12": dict(modules=_mods("OHVerif.Props.C12", "OHVerif.Props.C12Type"), groups=[("dynfunctor", 1500), ("functor", 800)], deps=[("oh", 400), ("ff", 300)]),
-    "C13": dict(modules=_mods("OHVerif.Props.C13"), groups=[("dynfunctor", 2500)], deps=[("lax.cat", 400)]),
+    "C12": dict(modules=_mods("OHVerif.Props.C12", "OHVerif.Props.C12Type", "OHVerif.Props.C12Subst"), groups=[("dynfunctor", 1500), ("functor", 800)], deps=[("oh", 400), ("ff", 300)]),
+    "C13": dict(modules=_mods("OHVerif.Props.C13", "OHVerif.Props.C13Native"), groups=[("dynfunctor", 2500)], deps=[("lax.cat", 400)]),
     "C14": dict(modules=_mods("OHVerif.Props.C14", "OHVerif.Props.C14Optic"), groups=[("optic", 1500)], deps=[("dynfunctor", 300), ("eval", 300)]),
     "C15": dict(modules=_mods("OHVerif.Props.C15", "OHVerif.Lemmas.Kahn"), groups=[("graph", 3000)], deps=[("ic", 400), ("prim", 300)]),
     "C16": dict(modules=_mods("OHVerif.Props.C16"), groups=[("eval", 3000)], deps=[("graph", 600)]),
